@@ -244,3 +244,37 @@ def r_rule_params_eval(root):
                 if not okw:
                     for pr in ("C22", "C01"): out.append(Finding(pr, "C22.h", L, "TextXVisitor.visit_rule_params", "ws=%r" % value, "the whitespace set of the rule becomes %r, the modifier names %r: characters of the declared set are not skipped inside the rule (or others are)" % (got, want), witness="Rule[ws=%s] with that character between two tokens" % repr(value)))
     return inst, out
+
+def r_C22jk(root):
+    """C22.j  visit_rule_param by evaluation: [skipws] -> (skipws, True), [noskipws] -> (skipws, False), [ws='x'] -> (ws, 'x'),
+              whatever the metamodel-wide setting is (an explicit modifier pins the mode of its rule; it is never dropped
+              because it 'equals the default').
+       C22.k  the visitor hands skipws / ws to a parsing expression only from the rule's own parameter table: no expression
+              constructor call in TextXVisitor has a skipws= or ws= keyword (they arrive through **rule_params / setattr)."""
+    from sa import pyeval
+    out = []; inst = 0
+    fn = find_i(root, L, "TextXVisitor.visit_rule_param")
+    for children, want in ((["skipws"], ["skipws", True]), (["noskipws"], ["skipws", False]), (["ws", " x"], ["ws", " x"]), (["nows"], ["ws", False])):
+        for glob in (True, False):
+            inst += 1
+            env = {"children": list(children), "self.debug": False, "self.metamodel.skipws": glob, "self.metamodel.ws": None, "node": {".k": 1}}
+            try: res = pyeval.run_block(fn.body, env)
+            except pyeval.Unsupported as e: raise AnalysisError("visit_rule_param: outside the evaluated subset: %s" % e)
+            except pyeval.Raised as e: res = "raise " + e.cls
+            ok = isinstance(res, (list, tuple)) and list(res) == want
+            for pr in ("C22", "C01"): ob(pr, "C22.j", L, "TextXVisitor.visit_rule_param", "%s with metamodel skipws=%s -> %s" % (children, glob, res), ok)
+            if not ok:
+                for pr in ("C22", "C01"): out.append(Finding(pr, "C22.j", L, "TextXVisitor.visit_rule_param", "[%s] with metamodel skipws=%s" % (" ".join(children), glob), "the rule parameter is read as %s, documented %s: an explicit modifier that equals the metamodel-wide setting must still pin the rule's mode" % (res, want), witness="a [skipws] rule called from a [noskipws] rule"))
+    t = load(root, L); vis = find(t, "TextXVisitor")
+    expr_classes = {a.asname or a.name for n in t.body if isinstance(n, ast.ImportFrom) and (n.module or "").startswith("arpeggio") for a in n.names}
+    n_ctor = 0
+    for c in calls(vis):
+        if callee_name(c) in expr_classes:
+            n_ctor += 1
+            for k in c.keywords:
+                if k.arg in ("skipws", "ws"):
+                    inst += 1
+                    for pr in ("C22", "C01"): out.append(Finding(pr, "C22.k", L, qualname(c), " ".join(ast.unparse(c).split())[:90], "a parsing expression is built with %s=%s: it overrides the whitespace mode of the rule it belongs to (modifiers reach expressions only through the rule's own parameter table)" % (k.arg, ast.unparse(k.value)[:40]), witness="Time[noskipws]: hours=INT 'h' mins=INT 'm';  input '1h 30m'"))
+    inst += 1
+    for pr in ("C22", "C01"): ob(pr, "C22.k", L, "TextXVisitor", "%d expression constructor calls carry no skipws=/ws= keyword" % n_ctor, not any(f.rule == "C22.k" for f in out))
+    return inst, out
